@@ -6,10 +6,13 @@ for d in sorted(glob.glob("/verif/seeded/*/")):
     sid = os.path.basename(d.rstrip("/"))
     m = json.load(open(d + "meta.json"))
     c = m.get("confirmed_by_framework_author", {})
-    rows.append((sid, ", ".join(m.get("files", [])), c.get("check_result", "?"), (c.get("detail") or "").replace("\n", " ").replace("|", "/")[:260], m.get("summary", "").replace("\n", " ").replace("|", "/")[:200]))
+    res = c.get("check_result", "?")
+    hist = [h.get("check_result") for h in c.get("history", []) if h.get("check_result")]
+    if res == "caught" and "missed" in hist: res = "caught after strengthening (missed at first)"
+    rows.append((sid, ", ".join(m.get("files", [])), res, (c.get("detail") or "").replace("\n", " ").replace("|", "/")[:260], m.get("summary", "").replace("\n", " ").replace("|", "/")[:200]))
 with open("/verif/seeded/INDEX.md", "w") as f:
     f.write("| seed | file(s) | result | obligation / reason | change |\n|---|---|---|---|---|\n")
     for r in rows: f.write("| %s | %s | %s | %s | %s |\n" % r)
-    n = len(rows); c = sum(1 for r in rows if r[2] == "caught")
-    f.write("\n%d seeded changes, %d caught, %d missed\n" % (n, c, n - c))
+    n = len(rows); c = sum(1 for r in rows if r[2].startswith("caught")); a = sum(1 for r in rows if "after strengthening" in r[2])
+    f.write("\n%d seeded changes, %d caught (%d of them only after the check was strengthened), %d missed\n" % (n, c, a, n - c))
 print(open("/verif/seeded/INDEX.md").read()[-200:])
